@@ -133,13 +133,28 @@ def _pipeline(v):
     return pipeline
 
 
-BODY = {"leafA": _leafA, "leafB": _leafB, "plus": _plus, "mid": _mid, "top": _top, "deep": _deep,
+def _cat2(v):
+    def cat2(a, b):
+        trace.enter("cat2", a, b)
+        return "%s|%s%s" % (a, b, ["", "~", "~~"][v])
+    return cat2
+
+
+def _nestfile(v):
+    def nestfile(path, x):
+        trace.enter("nestfile", path, x)
+        # a File built inside the body and nested as an argument of an argument of the returned call
+        return T["cat2"](T["readf"](File(path)), [x, T["leafA"](x)][: 1 + (v % 2)])
+    return nestfile
+
+
+BODY = {"cat2": _cat2, "nestfile": _nestfile, "leafA": _leafA, "leafB": _leafB, "plus": _plus, "mid": _mid, "top": _top, "deep": _deep,
         "maybe_fail": _maybe_fail, "recover": _recover, "guarded": _guarded, "failing_parent": _failing_parent,
         "readf": _readf, "writef": _writef, "pipeline": _pipeline}
-NVARIANTS = {"leafA": 3, "leafB": 3, "plus": 3, "mid": 3, "top": 3, "deep": 3, "maybe_fail": 3, "recover": 3,
+NVARIANTS = {"cat2": 3, "nestfile": 2, "leafA": 3, "leafB": 3, "plus": 3, "mid": 3, "top": 3, "deep": 3, "maybe_fail": 3, "recover": 3,
              "guarded": 2, "failing_parent": 2, "readf": 3, "writef": 3, "pipeline": 3}
 # who can run beneath whom (for aiming subtree edits)
-SUBTREE = {"mid": ["leafA", "plus"], "top": ["mid", "leafA", "leafB", "plus"],
+SUBTREE = {"nestfile": ["cat2", "readf", "leafA"], "mid": ["leafA", "plus"], "top": ["mid", "leafA", "leafB", "plus"],
            "deep": ["top", "mid", "leafA", "leafB", "plus"], "guarded": ["maybe_fail", "recover", "leafA"],
            "failing_parent": ["leafA", "leafB", "maybe_fail"], "pipeline": ["readf", "writef"]}
 
